@@ -13,6 +13,7 @@
 import RaftVerif.Proofs.Codec
 import RaftVerif.Proofs.CodecCfg
 import RaftVerif.Proofs.Meta
+import RaftVerif.Generated.Tables
 set_option linter.unusedSimpArgs false
 namespace Raft.Codec
 open Raft.Bytes
@@ -218,5 +219,45 @@ example : decodeLogBody (encodeLogBody { index := 2 ^ 64 - 1, term := 7, offset 
     some { index := 2 ^ 64 - 1, term := 7, offset := 4, data := [1, 2, 255], kind := 2 } :=
   C19_log_record_roundtrip _ (by unfold U64; decide) (by unfold U64; decide) (by unfold U64; decide)
     (by unfold U64; decide) (by unfold U64; decide)
+
+/-! ### The wire table of the source is the model's (regenerated on every run)
+
+  `Raft.Gen.pbFields` is read by the extractor from the struct tags of the generated protobuf code
+  (`internal/protobuf/raft.pb.go`): message, Go field, wire kind, field number, repeated. The
+  model's table is not written down a second time: it is what the model's own field functions
+  (`logFields`, `aeReqFields`, … — the functions the round-trip theorems are about) emit for a
+  message with every field set, reduced to (wire kind, field number). The two must be the same
+  list, message by message, in field-number order. A renumbered, retyped, added or removed field
+  in the source breaks this before any byte is compared. -/
+
+def Field.sig : Field → String × Nat
+  | .varint n _ => ("varint", n)
+  | .bytes n _ => ("bytes", n)
+
+/-- what the model emits for a message with every field set -/
+def modelWireTable : List (String × List (String × Nat)) :=
+  [ ("LogEntry", (logFields { index := 1, term := 1, offset := 1, data := [1], kind := 1 }).map Field.sig),
+    ("AppendEntriesRequest", (aeReqFields { leaderId := [1], term := 1, leaderCommit := 1, prevIndex := 1, prevTerm := 1,
+                                            entries := [{ index := 1, term := 1, data := [1], kind := 1 }] }).map Field.sig),
+    ("AppendEntriesResponse", (aeRespFields { term := 1, index := 1, success := true }).map Field.sig),
+    ("RequestVoteRequest", (rvReqFields { candidate := [1], term := 1, lastIndex := 1, lastTerm := 1, prevote := true }).map Field.sig),
+    ("RequestVoteResponse", (rvRespFields { term := 1, granted := true }).map Field.sig),
+    ("InstallSnapshotRequest", (isReqFields { term := 1, leader := [1], lastIndex := 1, lastTerm := 1, configuration := [1],
+                                              offset := 1, data := [1], isDone := true }).map Field.sig),
+    ("InstallSnapshotResponse", (isRespFields { term := 1, bytesWritten := 1 }).map Field.sig),
+    ("StorageState", (stateFields { term := 1, votedFor := [1] }).map Field.sig),
+    ("Configuration", (cfgFields { members := [([1], [1])], voters := [([1], true)], index := 1 }).map Field.sig) ]
+
+/-- what the source declares, per message, in declaration order -/
+def sourceWireTable (msg : String) : List (String × Nat) :=
+  (Raft.Gen.pbFields.filter (fun r => r.1 == msg)).map (fun r => (r.2.2.1, r.2.2.2.1))
+
+theorem C19_wire_table_of_the_source_is_the_models :
+    (∀ m ∈ modelWireTable, sourceWireTable m.1 = m.2) ∧
+    (∀ r ∈ Raft.Gen.pbFields, (modelWireTable.map (·.1)).contains r.1 = true) := by decide +kernel
+
+/-- the wire form of a log entry (`wentryFields`) uses the storage entry's numbers, without the offset -/
+example : (wentryFields { index := 1, term := 1, data := [1], kind := 1 }).map Field.sig =
+    ((logFields { index := 1, term := 1, offset := 1, data := [1], kind := 1 }).map Field.sig).filter (fun x => x.2 != 3) := by decide
 
 end Raft.Codec
